@@ -359,4 +359,6 @@ add("C33", "None axis specification flattened itself", "nifty/re/custom_map.py",
 add("C13", "inverse-draw refusal of a sum built but not raised", "nifty/cl/operators/sum_operator.py", "            raise NotImplementedError(\n                \"cannot draw from inverse of this operator\")", "            NotImplementedError(\n                \"cannot draw from inverse of this operator\")", "R13.10")
 add("C16", "L-BFGS history reset only at construction", "nifty/cl/minimization/descent_minimizers.py", "    def __call__(self, energy):\n        self.reset()\n        return super(L_BFGS, self).__call__(energy)\n", "    def __call__(self, energy):\n        return super(L_BFGS, self).__call__(energy)\n", "R16.5")
 add("C13", "per-key device dict leaves the lookup table unbound", "nifty/cl/multi_field.py", "            _device_id = defaultdict(lambda: device_id)\n        else:\n            _device_id = device_id\n", "            _device_id = defaultdict(lambda: device_id)\n", "R13.11")
+add("C34", "classic prior term from the prior energy", "nifty/cl/evidence_lower_bound.py", "        prior_mean_sq = float(np.real(samples.mean.s_vdot(samples.mean)))", "        prior_mean_sq = float(np.real(hamiltonian.prior_energy(samples.mean).asnumpy()))", "R34.8")
+add("C34", "empirical mean preferred over the stored position", "nifty/re/evidence_lower_bound.py", "        if samples.pos is not None:\n            mean = samples.pos\n        elif len(samples) > 0:\n            mean = tree_map(lambda x: jnp.mean(x, axis=0), samples.samples)\n", "        if len(samples) > 0:\n            mean = tree_map(lambda x: jnp.mean(x, axis=0), samples.samples)\n        elif samples.pos is not None:\n            mean = samples.pos\n", "R34.8")
 VARIANTS = V
